@@ -142,6 +142,7 @@ func isReceiverOf(v ssa.Value, fn *ssa.Function) bool {
 var c10CopyExempt = map[string]string{}
 
 func c10(c *Ctx) {
+	c10ReaderRestart(c, "C10.7/reader-restart-resets-iteration-state")
 	// ---- C10.1 copy-on-write -----------------------------------------------------------------------
 	r := "C10.1/copy-on-write"
 	nw := 0
@@ -623,4 +624,69 @@ func c10(c *Ctx) {
 
 	// ---- C10.4 flush/compaction ordering (shared with C03.4) --------------------------------------------
 	c03Index(c)
+}
+
+// c10ReaderRestart: a Reader is restarted by Reset (leafNode = nil) and re-positioned by the next Read/ReadBetween.
+// "The same spec on the same snapshot yields the same sequence": every field of the Reader that the iteration
+// advances (stored by Read or ReadBetween) is re-initialised either by Reset or in the re-positioning block of that
+// same function; a field that survives the restart (the offset already skipped, the key whose history was being
+// listed) makes the second pass differ from the first.
+func c10ReaderRestart(c *Ctx, r string) {
+	readerRestart(c, r, "embedded/tbtree.(*Reader).", "Reader", []string{"Read", "ReadBetween"}, true, 8)
+}
+
+// readerRestart is the analysis behind c10ReaderRestart for any reader type: rdT is the method prefix, st the struct
+// name; withRepos tells whether the readers re-position themselves in the block that installs the leaf found from the
+// snapshot's root (tbtree) or rely on Reset alone (store readers).
+func readerRestart(c *Ctx, r, rdT, stName string, readers []string, withRepos bool, floor int) {
+	storedFields := func(f *ssa.Function, in func(*ssa.BasicBlock) bool) map[string]bool {
+		out := map[string]bool{}
+		allInstrs(f, false, func(x ssa.Instruction) {
+			st, ok := x.(*ssa.Store)
+			if !ok || (in != nil && !in(x.Block())) {
+				return
+			}
+			if fl, _ := fieldOf(st.Addr); strings.HasPrefix(fl, stName+".") {
+				out[strings.TrimPrefix(fl, stName+".")] = true
+			}
+		})
+		return out
+	}
+	reset := c.mustFn(r, rdT+"Reset")
+	if reset == nil {
+		return
+	}
+	inReset := storedFields(reset, nil)
+	n := 0
+	for _, name := range readers {
+		f := c.mustFn(r, rdT+name)
+		if f == nil {
+			continue
+		}
+		inRepos := map[string]bool{}
+		if withRepos {
+			// the re-positioning block: where the leaf found from the snapshot's root is installed
+			var repos *ssa.BasicBlock
+			for _, in := range sites(f, storeTo(stName+".leafNode")) {
+				if strings.Contains(desc(in.(*ssa.Store).Val), "snapshot.root") {
+					repos = in.Block()
+				}
+			}
+			if repos == nil {
+				c.undecided(r, rdT+name, "re-positioning block (leafNode = root.findLeafNode(...)) not found")
+				continue
+			}
+			inRepos = storedFields(f, func(b *ssa.BasicBlock) bool { return b == repos })
+		}
+		for _, fld := range sortedKeys(storedFields(f, nil)) {
+			if fld == "closed" {
+				continue
+			}
+			n++
+			c.check(inReset[fld] || inRepos[fld], r, rdT+name+":"+fld, c.pos(f.Pos()), "re-initialised on restart", stName+"."+fld+" is advanced by "+name+" but neither Reset nor the re-positioning block of "+name+" re-initialises it: after Reset the reader does not replay the same sequence")
+		}
+	}
+	if n < floor {
+		c.undecided(r, "floor", fmt.Sprintf("%d iteration-state fields of %s analysed, expected at least %d", n, stName, floor))
+	}
 }
